@@ -47,8 +47,31 @@ func genC14(r *Rng, tier string) *Plan {
 			if fam[e.ID] == "rsa" {
 				fp.P8 = Pick(r, []string{"null", "noparams"})
 			}
-			g.P.Add(Op{K: "replace-art", Ent: e.ID, Arg: fp.JSON(), Label: "foreign-key:" + fp.P8 + "/" + fp.Pad})
+			if r.Chance(1, 3) {
+				// a complete foreign artifact with the key block first
+				fp.Parts, fp.Order, fp.Str = "cert+key", "key-first", "printable"
+			} else if len(g.children(e)) == 0 && r.Chance(1, 2) {
+				// a bundle: own certificate, a chain certificate, then the key (leaves only: which
+				// certificate of a bundle counts as the entity's own is not something C14 decides)
+				fp.Parts, fp.Str = "cert+chain+key", "printable"
+			}
+			g.P.Add(Op{K: "replace-art", Ent: e.ID, Arg: fp.JSON(), Label: "foreign-key:" + fp.P8 + "/" + fp.Pad + fp.Order})
 			g.P.Meta["foreign-key"] = "1"
+		}
+	}
+	// a request made elsewhere, for a key of another type than the config names: the certificate
+	// carries the request's key all the same
+	for _, e := range g.leaves(true) {
+		if r.Chance(1, 6) && g.ent(e.ID) != nil {
+			other := "RSA-1024"
+			if fam[e.ID] == "rsa" {
+				other = Pick(r, []string{"P-256", "P-384", "brainpoolP256r1"})
+			} else if r.Bool() {
+				other = Pick(r, []string{"P-521", "brainpoolP512r1", "P-224"})
+			}
+			fp := ForeignParams{Parts: "csr", KeyAlg: other, Str: Pick(r, []string{"utf8", "printable", "ia5"})}
+			g.P.Add(Op{K: "replace-art", Ent: e.ID, Arg: fp.JSON(), Label: "foreign-request:" + other})
+			g.Csr[e.ID] = true
 		}
 	}
 	g.Run(DefaultFlags, "setup")
